@@ -51,7 +51,7 @@ def codes_for_handle(toks, h, upto):
 
 def after_done_class(trace):
     """classify every `!trap:copy-after-done`: which code made the end `done`?
-    DROPPED|0 -> the candidate F10 (StreamResult::Dropped does not set `done`); DROPPED|k>0 -> `done` was
+    DROPPED|0 -> F10 (StreamResult::Dropped did not set `done`; repaired in /repo 44e42ba — a regression if seen); DROPPED|k>0 -> `done` was
     not set although the code sets it there (a different defect)"""
     toks = trace.split(" ")
     classes = set()
